@@ -39,6 +39,8 @@ mod c13;
 mod c15;
 #[cfg(all(kani, feature = "c16"))]
 mod c16;
+#[cfg(all(kani, feature = "c18"))]
+mod c18;
 #[cfg(all(kani, any(feature = "c17", feature = "c01")))]
 mod c17;
 #[cfg(all(kani, feature = "c14"))]
